@@ -1054,6 +1054,7 @@ func runC20(e *env) {
 	c20Laws(e, g)
 	c20BigMaps(e, g)
 	c20Probes(e, g)
+	c20RenderPath(e, g)
 }
 
 type c20Case struct {
